@@ -656,8 +656,9 @@ namespace sim
 					m_udp_associate.send_to(boost::asio::buffer(buf, bytes_transferred)
 						, udp::endpoint(it->second, port), 0, err);
 					if (err) std::printf("send_to failed: %s\n", err.message().c_str());
-					return;
 				}
+				else
+				{
 
 				std::vector<char> forward_buffer(buf, buf + bytes_transferred);
 
@@ -685,6 +686,8 @@ namespace sim
 							std::printf("send_to failed: %s\n", err.message().c_str());
 						}
 					});
+
+				}
 			}
 			else if (atyp == 1)
 			{
